@@ -20,7 +20,10 @@ inductive RStmt
   | declLocals               -- var ( rest string; grapheme = bldr.String(); w int )
   | whileBuffered            -- for p.r.Buffered() > 0 {              (printLoop: `rd.buf.isEmpty`)
   | endWhile                 -- }
-  | peekRune                 -- nextRune, _, _ := p.r.ReadRune()          (no fallback here: F102d)
+  | peekRune                 -- nextRune, _, _ := p.r.ReadRune()          (the shape before F102d was repaired)
+  | peekRuneSized            -- nextRune, size, _ := p.r.ReadRune()
+  | ifInvalidUnreadBreak     -- if nextRune == unicode.ReplacementChar && size == 1 { p.r.UnreadRune(); break }
+                             --   (printLoop: the look-ahead stops in front of an invalid byte; F102d repaired)
   | writeNext                -- bldr.WriteRune(nextRune)
   | firstCluster             -- grapheme, rest, w, _ = uniseg.FirstGraphemeClusterInString(bldr.String(), -1)
   | ifRestUnreadBreak        -- if rest != "" { p.r.UnreadRune(); break } (printLoop: `acc.length + 1 > cl`)
@@ -37,7 +40,7 @@ def handReadRune (size1 : Bool) : List RStmt := [.readRune, .stopTimer, .fallbac
 /-- `print` as the model transcribes it. -/
 def handPrint : List RStmt :=
   [.newBuilder, .writeFirst, .declLocals,
-   .whileBuffered, .peekRune, .writeNext, .firstCluster, .ifRestUnreadBreak, .endWhile,
+   .whileBuffered, .peekRuneSized, .ifInvalidUnreadBreak, .writeNext, .firstCluster, .ifRestUnreadBreak, .endWhile,
    .measureIfZero, .emitPrint]
 
 def handEmit : List RStmt := [.sendSeq]
